@@ -21,3 +21,6 @@ for ID in "$@"; do
   grep -E "^VIOLATION|^KNOWN-FINDING: property|^$ID quick|harness error|total violations|^  [a-zA-Z]" $LOG | cut -c1-400 | head -${SEED_LINES:-10}
 done
 rm -f $LOG
+# restore /repo now and rebuild what was built from the changed tree (hook server, runtime variants)
+cd /repo && git checkout -- . && git clean -fdq -- . >/dev/null 2>&1
+(cd $VROOT && ./run.sh setup >/dev/null 2>&1)
